@@ -17,9 +17,10 @@ import (
 // C15: transport-wide sequence numbers are gap-free and unique across streams.
 
 type c15Cfg struct {
-	ExtIDs  []int `json:"ext_ids"` // per stream; 0 = not negotiated
-	Writers []int `json:"writers"` // writer -> stream
-	Bulk    int   `json:"bulk"`    // extra packets written by writer 0 round-robin over streams (wrap run)
+	ExtIDs  []int `json:"ext_ids"`              // per stream; 0 = not negotiated
+	Writers []int `json:"writers"`              // writer -> stream
+	Bulk    int   `json:"bulk"`                 // extra packets written by writer 0 round-robin over streams (wrap run)
+	Reuse   bool  `json:"reuse_info,omitempty"` // the caller reuses the extension list of a StreamInfo for the next stream after Bind returned
 }
 
 type c15Op struct {
@@ -62,6 +63,7 @@ func (c15) Gen(seed int64, tier string, avoid []string) *Plan {
 	if r.Intn(wrapEvery) == 0 {
 		cfg.Bulk = 65536 + r.Intn(3000)
 	}
+	cfg.Reuse = chance(r, 300)
 	stallP := pick(r, 0, 50, 300)
 	errP := pick(r, 0, 0, 30, 150)
 	var ops []c15Op
@@ -133,6 +135,13 @@ func (c15) Run(e *Env) {
 			}
 			return len(pl), nil
 		}))
+		if cfg.Reuse {
+			// Bind has returned: the list is the caller's again (here: recycled for some other description)
+			for i := range info.RTPHeaderExtensions {
+				info.RTPHeaderExtensions[i] = interceptor.RTPHeaderExtension{URI: "urn:recycled", ID: 1 + (id+6+i)%14}
+			}
+			e.Fault("caller_reuses_stream_info")
+		}
 	}
 	byW := make([][]c15Op, len(cfg.Writers))
 	for _, o := range ops {
